@@ -405,6 +405,15 @@ func init() {
 		} else {
 			k.MaxWidth = 5
 		}
+		if gen.Chance(t, "c05.aligned", 10) {
+			// draw list and distribution list with coinciding boundaries
+			tight := gen.Chance(t, "c05.tight", 50)
+			ec := gen.AlignedCase(t, tight)
+			if tight || gen.Chance(t, "c05.aligned.colliding", 30) {
+				ec.Rename(gen.CollidingNames(1))
+			}
+			return ec
+		}
 		ec := gen.NewTG(t, k).Case()
 		for _, st := range ec.Script.Stmts {
 			if st.Kind == gen.StSend && !st.All && gen.Chance(t, "c05.world", 50) {
